@@ -66,6 +66,13 @@ ALPHABET = [
     'create scalar type default::S extending str',
     'drop scalar type default::S',
     'alter type default::A create property s: default::S',
+    # collection types over a user scalar live in the global name index and
+    # are renamed along with their element type
+    'alter type default::A create property arr: array<default::S>',
+    'alter type default::A create property tup: tuple<default::S, str>',
+    'alter scalar type default::S rename to default::S2',
+    'alter scalar type default::S2 rename to default::S',
+    'alter type default::A drop property arr',
     # link properties referring to user scalars / functions (a link property
     # is a referrer like any other)
     'create type default::L1 { create link a: default::A { create property lp: default::S } }',
@@ -263,9 +270,15 @@ def check(schema, dropped):
         for n, oid in flat._name_to_id.items():
             if oid not in flat._id_to_type:
                 problems.append(('name-index-stale', str(n)))
+            elif _name_of(schema, oid) not in (None, n):
+                # a retired name must not keep resolving
+                problems.append(('name-index-names-renamed-object', str(n)))
         for (c, n), oid in flat._globalname_to_id.items():
             if oid not in flat._id_to_type:
                 problems.append(('globalname-index-stale', str(n)))
+            elif _name_of(schema, oid) not in (None, n):
+                problems.append(('globalname-index-names-renamed-object',
+                                 str(n)))
         for (c, n), ids in flat._shortname_to_id.items():
             for oid in ids:
                 if oid not in flat._id_to_type:
@@ -278,6 +291,13 @@ def check(schema, dropped):
             if did in flat._refs_to and any(flat._refs_to[did].values()):
                 problems.append(('dropped-still-referenced', dname))
     return sorted(set(problems))
+
+
+def _name_of(schema, oid):
+    try:
+        return schema.get_by_id(oid).get_name(schema)
+    except Exception:
+        return None
 
 
 def apply(schema, cmd):
